@@ -19,7 +19,7 @@ def draws_per_call(ctx, s, f, kern):
     percall = inv[0][1][0]
     total = ZERO
     ok = True
-    if (percall['lo'], percall['hi']) != (ZERO, sym('calls')):
+    if (percall['lo'], percall['hi']) != (ZERO, sym(f.params[1].name)):
         ctx.violation('R1.calls_times', '%s:%s' % (percall['where'], base), 'the per-call loop does not '
                       'run exactly `calls` times: the generator is not advanced by calls x amount',
                       {'from': T.pretty(percall['lo'])[:200], 'to': T.pretty(percall['hi'])[:200]})
@@ -27,7 +27,7 @@ def draws_per_call(ctx, s, f, kern):
     else:
         ctx.holds('R1.calls_times', '%s:%s' % (percall['where'], base), 'the per-call loop runs exactly '
                   '`calls` times')
-    gen = sym('generator')
+    gen = sym(f.params[-1].name)
     effs = list(flat_effects(s.effects))
     first_data_dep = None
     for idx, (e, loops) in enumerate(effs):
@@ -117,7 +117,7 @@ def check(ctx):
                     ctx.violation('R1.draws_per_call', fsite(f), 'canonical numbers per call is %s, '
                                   'documented: %s' % (T.pretty(total)[:200], T.pretty(expected[kern])), wit)
                 # the generator is taken by non-const reference
-                gp = [q for q in f.params if q.name == 'generator']
+                gp = [f.params[-1]]
                 if gp and symex.is_mut_ref(gp[0].type):
                     ctx.holds('R2.by_reference', fsite(f), 'the kernel advances the caller\'s generator '
                               '(non-const reference)')
@@ -144,7 +144,8 @@ def check(ctx):
                     raise AnalysisBroken('driver shape not recognised')
                 g = ad[0]['args'][1]
                 w = '%s:%s' % (ad[0]['where'], name.replace('hep::', ''))
-                if isinstance(g, tuple) and g[0] == 'hout' and g[1] == kern and g[2] == 'generator':
+                kf = p.find(kern)[0]
+                if isinstance(g, tuple) and g[0] == 'hout' and g[1] == kern and g[2] == kf.params[-1].name:
                     # no discard between the kernel and add in serial drivers; MPI: discards allowed
                     ctx.holds('R2.stored_generator', w, 'chkpt.add stores the very generator object the '
                               'kernel advanced')
@@ -152,8 +153,7 @@ def check(ctx):
                     ctx.violation('R2.stored_generator', w, 'the generator stored in the checkpoint is not '
                                   'the object advanced by the kernel', {'stored': T.pretty(g)[:300]})
                 kg = kc[0]['args'][-1]
-                loops = [l for l in s.loops if 'generator' in l.updates]
-                if loops and kg == loops[0].updates['generator']['pre'] or kg == sym('generator'):
+                if isinstance(kg, tuple) and kg and kg[0] == 'pre':
                     ctx.holds('R2.kernel_generator', w, 'the kernel samples from the driver\'s generator variable')
                 if 'mpi' not in name:
                     dis = [e for e, l in effs if e['kind'] == 'discard']
